@@ -20,6 +20,8 @@ var vfScripts = [][]vfOp{
 	{{0, 1, "a"}, {0, 2, "b"}, {1, 1, "A"}, {0, 3, "c"}, {2, 2, ""}, {1, 3, "C"}},
 	{{0, 5, "e"}, {1, 5, "E"}, {2, 5, ""}, {0, 5, "again"}, {3, 6, "f"}, {3, 6, "F"}},
 	{{0, 1, "a"}, {0, 2, "b"}, {0, 3, "c"}, {0, 4, "d"}, {0, 5, "e"}, {2, 3, ""}, {1, 4, "D"}},
+	// the same item updated several times, in one or in several transactions
+	{{0, 7, "g"}, {1, 7, "G"}, {1, 7, "GG"}, {0, 8, "h"}, {1, 8, "H"}, {1, 7, "GGG"}},
 }
 
 // VerifC19Placements: a scripted operation sequence is applied to a persisted store under
